@@ -78,6 +78,8 @@ def handle (req : Json) : Json :=
         ("leak_free", Bridge.leakFreeB p b),
         -- the static condition on the main graph (`build_valid_mainClean_checked`); cubic: small programs only
         ("main_clean", if p.nodes.length ≤ 400 then toJson (Bridge.mainCleanB p b) else Json.null),
+        -- the lexical condition on the program alone (`build_valid_lexical_checked`)
+        ("lexical", if p.nodes.length ≤ 400 then toJson (Bridge.lexicalB p) else Json.null),
         ("bridge_wf", Prog.wfCheck (Bridge.toProg p b.argsOf).nodes),
         ("bridge_same_emission", decide (Bridge.flatG (Bridge.toEGraph p b) = Bridge.flatTrace tr))] : List (String × Json))
         ++ pubJ p req)
